@@ -31,11 +31,12 @@ type Outcome struct {
 
 type Scenario struct {
 	Name       string
-	Quick      int  // deviation bound in the quick tier
-	Thorough   int  // deviation bound in the thorough tier
-	NoCache    bool // disable the happens-before state cache for this scenario
-	AllowHang  bool // the generic "foreground thread blocked at quiescence" oracle is off (scenario decides)
-	AllowAbort bool // executions cut by the step horizon are expected (polling loops)
+	Quick      int   // deviation bound in the quick tier
+	Thorough   int   // deviation bound in the thorough tier
+	NoCache    bool  // disable the happens-before state cache for this scenario
+	AllowHang  bool  // the generic "foreground thread blocked at quiescence" oracle is off (scenario decides)
+	AllowAbort bool  // executions cut by the step horizon are expected (polling loops)
+	MaxExecs   int64 // cap on executions per bound level (0: 300k quick / 6M thorough); hitting it ends the scenario as not exhaustive
 	Run        func(ch vs.Chooser, trace bool) (*vs.Sched, Outcome)
 }
 
@@ -74,16 +75,19 @@ func (r *SeqResult) Violate(sig, what string, replay interface{}) {
 }
 
 type job struct {
-	XCheck   bool   `json:"x,omitempty"`
-	Seq      string `json:"q,omitempty"`
-	Shard    int    `json:"i,omitempty"`
-	NShards  int    `json:"n,omitempty"`
-	Thorough bool   `json:"t,omitempty"`
-	Scenario string `json:"s"`
-	Bound    int    `json:"b"`
-	Prefix   []int  `json:"p"`
-	Cache    bool   `json:"c"`
-	Deadline int64  `json:"d"` // unix seconds
+	XCheck   bool    `json:"x,omitempty"`
+	Seq      string  `json:"q,omitempty"`
+	Shard    int     `json:"i,omitempty"`
+	NShards  int     `json:"n,omitempty"`
+	Thorough bool    `json:"t,omitempty"`
+	Scenario string  `json:"s"`
+	Bound    int     `json:"b"`
+	Prefix   []int   `json:"p"`
+	Prefixes [][]int `json:"ps,omitempty"`
+	Budget   int64   `json:"g,omitempty"`
+	Cache    bool    `json:"c"`
+	Deadline int64   `json:"d"` // unix seconds
+	MaxExecs int64   `json:"m,omitempty"`
 }
 
 type foundV struct {
@@ -99,6 +103,7 @@ type jobResult struct {
 	Viol     []foundV         `json:"viol"`
 	Err      string           `json:"err"`
 	Sample   []string         `json:"sample"`
+	Rest     [][]int          `json:"rest,omitempty"`
 }
 
 func (sc *Scenario) runFunc(out *Outcome) explore.RunFunc {
@@ -154,6 +159,7 @@ func (sc *Scenario) exploreJob(j job) jobResult {
 	if j.Deadline > 0 {
 		ex.Deadline = time.Unix(j.Deadline, 0)
 	}
+	ex.MaxExecs = j.MaxExecs
 	ex.Check = func(x *explore.Exec) {
 		o := last
 		sc.generic(x.Sched, &o)
@@ -180,7 +186,11 @@ func (sc *Scenario) exploreJob(j job) jobResult {
 	if j.Prefix == nil && false {
 		ex.Expand(1)
 	}
-	ex.Subtree(j.Prefix)
+	if j.Budget > 0 {
+		res.Rest = ex.Budgeted(j.Prefixes, j.Budget)
+	} else {
+		ex.Subtree(j.Prefix)
+	}
 	res.Stats = ex.Stats
 	if ex.Err != "" {
 		res.Err = ex.Err
@@ -197,9 +207,9 @@ func (sc *Scenario) crossCheck(cb int) xcheckResult {
 	sets := [2]map[string]bool{{}, {}}
 	var execs [2]int64
 	for k, cache := range []bool{true, false} {
-		r := sc.exploreJob(job{Scenario: sc.Name, Bound: cb, Cache: cache, Deadline: time.Now().Add(40 * time.Second).Unix()})
+		r := sc.exploreJob(job{Scenario: sc.Name, Bound: cb, Cache: cache, Deadline: time.Now().Add(20 * time.Second).Unix()})
 		if r.Stats.Capped {
-			return xcheckResult{Verdict: fmt.Sprintf("inconclusive at bound %d (40 s cap)", cb)}
+			return xcheckResult{Verdict: fmt.Sprintf("inconclusive at bound %d (20 s cap)", cb)}
 		}
 		for o := range r.Outcomes {
 			sets[k][o] = true
@@ -263,7 +273,7 @@ func Main(id string, scenarios []Scenario, extra Extra, seqParts ...SeqPart) {
 		os.Stdout = null
 	}
 	thorough := run.Thorough()
-	budget := 150 * time.Second
+	budget := 100 * time.Second
 	if thorough {
 		budget = 25 * time.Minute
 	}
@@ -296,7 +306,7 @@ func Main(id string, scenarios []Scenario, extra Extra, seqParts ...SeqPart) {
 			}
 		}
 		info := map[string]interface{}{}
-		shard.Run(jobs, shard.Options{JobTimeout: budget + 2*time.Minute}, func(i int, raw json.RawMessage, fail *shard.Failure) {
+		shard.Run(jobs, shard.Options{JobTimeout: budget + 2*time.Minute, Env: []string{"GOMAXPROCS=1"}}, func(i int, raw json.RawMessage, fail *shard.Failure) {
 			j := jobs[i].(job)
 			if fail != nil {
 				run.Infra(fmt.Sprintf("%s shard %d: worker %s: %s\n%s", j.Seq, j.Shard, fail.Kind, fail.Exit, fail.Stderr))
@@ -395,9 +405,9 @@ func Main(id string, scenarios []Scenario, extra Extra, seqParts ...SeqPart) {
 		}
 	}
 	for b := 0; b <= maxB; b++ {
-		var jobs []interface{}
-		var owner []string
 		capped := map[string]bool{}
+		pending := map[string][][]int{}
+		caps := map[string]int64{}
 		for i := range scenarios {
 			sc := &scenarios[i]
 			st := stats[sc.Name]
@@ -411,7 +421,7 @@ func Main(id string, scenarios []Scenario, extra Extra, seqParts ...SeqPart) {
 			// the coordinator expands the tree to a frontier of subtrees and checks what it runs on the way
 			var last Outcome
 			res := jobResult{Outcomes: map[string]int64{}}
-			ex := &explore.Explorer{Run: sc.runFunc(&last), Bound: b, UseCache: false, Deadline: deadline}
+			ex := &explore.Explorer{Run: sc.runFunc(&last), Bound: b, UseCache: false, Deadline: deadline, MaxExecs: 20000}
 			seenSig := map[string]bool{}
 			ex.Check = func(x *explore.Exec) {
 				o := last
@@ -440,29 +450,67 @@ func Main(id string, scenarios []Scenario, extra Extra, seqParts ...SeqPart) {
 			if ex.Stats.Capped {
 				capped[sc.Name] = true
 			}
-			for _, p := range frontier {
-				jobs = append(jobs, job{Scenario: sc.Name, Bound: b, Prefix: p, Cache: true, Deadline: deadline.Unix()})
-				owner = append(owner, sc.Name)
+			capExecs := sc.MaxExecs
+			if capExecs == 0 {
+				capExecs = 400000
+				if thorough {
+					capExecs = 8000000
+				}
 			}
+			caps[sc.Name] = capExecs
+			pending[sc.Name] = frontier
 		}
-		shard.Run(jobs, shard.Options{JobTimeout: budget + 2*time.Minute}, func(i int, raw json.RawMessage, fail *shard.Failure) {
-			name := owner[i]
-			st := stats[name]
-			if fail != nil {
-				run.Infra(fmt.Sprintf("%s: worker %s: %s\n%s", name, fail.Kind, fail.Exit, fail.Stderr))
-				capped[name] = true
-				return
+		// dynamic rounds: every job explores a few thousand executions of its subtrees and returns what is left
+		for round := 0; ; round++ {
+			var jobs []interface{}
+			var owner []string
+			for name, pre := range pending {
+				st := stats[name]
+				if len(pre) == 0 {
+					continue
+				}
+				if time.Now().After(deadline) || st.Stats.Executions > caps[name] {
+					capped[name] = true
+					pending[name] = nil
+					continue
+				}
+				chunk := len(pre)/16 + 1
+				if chunk > 24 {
+					chunk = 24
+				}
+				for k := 0; k < len(pre); k += chunk {
+					e := k + chunk
+					if e > len(pre) {
+						e = len(pre)
+					}
+					jobs = append(jobs, job{Scenario: name, Bound: b, Prefixes: pre[k:e], Budget: 3000, Cache: true, Deadline: deadline.Unix()})
+					owner = append(owner, name)
+				}
+				pending[name] = nil
 			}
-			var r jobResult
-			if err := json.Unmarshal(raw, &r); err != nil {
-				run.Infra("bad worker result: " + err.Error())
-				return
+			if len(jobs) == 0 {
+				break
 			}
-			record(name, r, st)
-			if r.Stats.Capped {
-				capped[name] = true
-			}
-		})
+			shard.Run(jobs, shard.Options{JobTimeout: budget + 2*time.Minute, Env: []string{"GOMAXPROCS=1"}}, func(i int, raw json.RawMessage, fail *shard.Failure) {
+				name := owner[i]
+				st := stats[name]
+				if fail != nil {
+					run.Infra(fmt.Sprintf("%s: worker %s: %s\n%s", name, fail.Kind, fail.Exit, fail.Stderr))
+					capped[name] = true
+					return
+				}
+				var r jobResult
+				if err := json.Unmarshal(raw, &r); err != nil {
+					run.Infra("bad worker result: " + err.Error())
+					return
+				}
+				record(name, r, st)
+				if r.Stats.Capped {
+					capped[name] = true
+				}
+				pending[name] = append(pending[name], r.Rest...)
+			})
+		}
 		for name, st := range stats {
 			if st.BoundRequested < b || !st.Exhaustive {
 				continue
@@ -489,10 +537,13 @@ func Main(id string, scenarios []Scenario, extra Extra, seqParts ...SeqPart) {
 			if cb > 1 {
 				cb = 1
 			}
+			if st.Stats.Executions > 30000 {
+				cb = 0 // large scenario: the uncached run at bound 1 would dominate the check's run time
+			}
 			jobs = append(jobs, job{Scenario: sc.Name, Bound: cb, XCheck: true})
 			names = append(names, sc.Name)
 		}
-		shard.Run(jobs, shard.Options{JobTimeout: 5 * time.Minute}, func(i int, raw json.RawMessage, fail *shard.Failure) {
+		shard.Run(jobs, shard.Options{JobTimeout: 5 * time.Minute, Env: []string{"GOMAXPROCS=1"}}, func(i int, raw json.RawMessage, fail *shard.Failure) {
 			st := stats[names[i]]
 			if fail != nil {
 				st.CrossCheck = "failed: " + fail.Kind
